@@ -907,6 +907,71 @@ def loop_history(rng, notes, big):
             'data': {'x': x.tolist(), 'y': y.tolist(), 'w': w.tolist()}, 'masked': mrecs}
 
 
+def run_phases(nord, S, phases, rng, notes, src):
+    """Repeated fit() calls on ONE object while the data change: phases = [(pc, x, y, w), ...]; within a phase the fit
+    is repeated while it answers -1.  Returns (events, masked records)."""
+    s = make_sset(nord, knots_for(nord, S), notes)
+    events, mrecs = [], []
+    for ph, (pc, x, y, w) in enumerate(phases):
+        if ph:
+            events.append({'a': 'data', 'pc': list(pc), 'more': S})
+        for _ in range(S):
+            ill = illcond(s, x, w)
+            o = call_fit(s, x, y, w)
+            if o['exc']:
+                events.append({'a': 'raise', 'exc': o['exc'], 'mask': good(o['before'])})
+                return events, mrecs
+            if not o['before'].all():
+                meas = masked_measure(s, x, y, w, o['yfit'] if o['st'] == 0 else None, rng)
+                mrecs.append(masked_record('masked', nord, S, pc, good(o['before']), o['st'], o['finite'], meas, src,
+                                           {'x': x.tolist(), 'y': y.tolist(), 'w': w.tolist()}, ill=ill, gs=(o['gsb'], o['gsa'])))
+            events.append({'a': 'fit', 'mask': good(o['before']), 'st': o['st'] if isinstance(o['st'], int) else 99,
+                           'after': good(o['after']), 'finite': o['finite'], 'illcond': ill, 'gsb': o['gsb'], 'gsa': o['gsa'],
+                           'argsok': True})
+            if o['st'] in (0, -2) or not isinstance(o['st'], int):
+                break
+    return events, mrecs
+
+
+def multidata_history(rng, notes, big):
+    """One object, data that change between fits: a gap wider than the spacing, then a SECOND gap to the right / to the
+    left of / overlapping the region already masked (weights set to zero or points removed), then all data back."""
+    nord = rng.choice([1, 2, 3, 3, 4, 4, 5, 6])
+    S = rng.randint(8, 18 if big else 14)
+    where = rng.choice(['right', 'right', 'left', 'overlap', 'adjacent'])
+    la = rng.randint(2, 4)
+    a0 = rng.randint(1, S - 2 * la - 3) if where != 'left' else rng.randint(la + 3, S - la - 1)
+    lb = rng.randint(2, 4)
+    if where == 'right':
+        b0 = rng.randint(a0 + la + 1, S - lb - 1) if a0 + la + 1 <= S - lb - 1 else a0 + la + 1
+    elif where == 'left':
+        b0 = rng.randint(0, max(0, a0 - lb - 1))
+    elif where == 'overlap':
+        b0 = a0 + la - 1
+    else:
+        b0 = a0 + la
+    gapA = set(range(a0, min(S, a0 + la)))
+    gapB = set(c for c in range(b0, min(S, b0 + lb)))
+
+    def pattern(gaps):
+        pc = [0] * (2 * S + 1)
+        for c0 in range(S):
+            pc[2 * c0 + 1] = 0 if c0 in gaps else rng.choice([nord + 1, nord + 2])
+        return pc
+    pcs = [pattern(gapA), pattern(gapA | gapB)]
+    if rng.random() < 0.5:
+        pcs.append(pattern(set()))                       # the data come back: the mask does not
+    ysc, wsc = 2.0 ** rng.choice([0, 0, -20, 20]), 2.0 ** rng.choice([0, 0, -40, 10, 40])
+    phases = []
+    for pc in pcs:
+        x, y, w = cell_data(nord, S, pc, rng)
+        phases.append((pc, x, y * ysc, w * wsc))
+    src = 'multi/' + where
+    events, mrecs = run_phases(nord, S, phases, rng, notes, src)
+    return {'nord': nord, 'S': S, 'pc': pcs[0], 'maxfits': S, 'events': events, 'src': src, 'masked': mrecs,
+            'data': {'phases': [{'pc': list(pc), 'x': x.tolist(), 'y': y.tolist(), 'w': w.tolist()} for pc, x, y, w in phases]}}
+
+
 class Recorder(object):
     """Wraps bspline.fit for the duration of one iterfit call."""
     def __init__(self, m, rng=None, poly=None, always=False, expect=None):
@@ -1430,6 +1495,8 @@ def run_histories(ctx, notes):
     nloop, niter = (220, 220) if ctx.quick else (2500, 2500)
     for k in range(nloop):
         hists.append(loop_history(rng, notes, big=not ctx.quick))
+    for k in range(80 if ctx.quick else 1200):
+        hists.append(multidata_history(rng, notes, big=not ctx.quick))
     for k in range(niter):
         h = iterfit_history(rng, stats)
         if h is not None:
@@ -1721,6 +1788,12 @@ def replay(ctx, case):
             if bad is None and 'S' in h:
                 ref = validate_histories(ctx, [dict(h, events=rec.events)], 'replay')
                 bad = 'history still refused at event %d' % (ref[0] + 1) if ref else None
+        elif h['src'].startswith('multi'):
+            ev, _m = run_phases(h['nord'], h['S'], [(p0['pc'], np.array(p0['x']), np.array(p0['y']), np.array(p0['w']))
+                                                    for p0 in d['phases']], random.Random(1), notes, h['src'])
+            print('events now:', ev)
+            ref = validate_histories(ctx, [dict(h, events=ev)], 'replay')
+            bad = 'history still refused at event %d' % (ref[0] + 1) if ref else None
         else:
             s = make_sset(h['nord'], knots_for(h['nord'], h['S']), notes)
             ev = []
